@@ -255,6 +255,10 @@ def forced_history(ctx, _state={"i": 0}):
 
 def run(ctx):
     proof = common.proof_status(ctx)
+    # call-level correspondence of the handle model the C08_refused_write / C08_short_write theorems are about (histories with forced
+    # refusals and nearly full volumes are part of its generator)
+    from . import fileiocorr
+    fileiocorr.run(ctx, 24 if ctx.tier == "quick" else 800)
     rng = ctx.rng
     first_fail = None
     others = {}
